@@ -135,6 +135,35 @@ def run(p, led, tier):
         else:
             led.ok("C20-R2", key, where(mut, mut.node), f"{len(refused)} refusing path(s), each appends exactly one unapproved record")
 
+    # every request is judged afresh: in a history of two mutations the second one may change the table only if the
+    # callback was consulted *during that call* and approved (an approval is for one specific change)
+    for second in ("same new value", "other new value", "a value approved two steps ago"):
+        def go2(o):
+            it, obj = mk(o, False, "callback")
+            m = p.find_method(genome, "mutate")
+            try:
+                it.call_fi(m, [obj, "g1", Unknown("new_value"), Unknown("reason1")], {})
+                if second == "a value approved two steps ago":
+                    it.call_fi(m, [obj, "g1", Unknown("interim_value"), Unknown("reason1b")], {})
+                mark_e, mark_d = len(it.events), len(it.decisions)
+                before = genes_snap(obj)
+                r = it.call_fi(m, [obj, "g1", Unknown("new_value2") if second == "other new value" else Unknown("new_value"), Unknown("reason2")], {})
+            except PyRaise as e:
+                if "on_mutation" in repr(e.exc):
+                    return None
+                raise
+            asked = [e for e in it.events[mark_e:] if e[0] == "extcall" and "on_mutation" in str(e[1])]
+            approved = any("on_mutation" in d[2] and d[3] is True for d in it.decisions[mark_d:])
+            return dict(changed=genes_snap(obj) != before, asked=len(asked), approved=approved, ret=r)
+        paths = [(l, r) for l, r in explore(go2, max_paths=400) if r is not None]
+        key = f"Genome.mutate ▸ later request ({second}) judged afresh"
+        bad = [r for _, r in paths if r["changed"] and not (r["asked"] >= 1 and r["approved"])]
+        if bad:
+            led.fail("C20-R1", key, where(mut, mut.node), f"{len(bad)}/{len(paths)} path(s): the second mutation changed the gene table without the callback approving it in that call (asked {bad[0]['asked']}×)",
+                     witness="approve free→pro, approve pro→enterprise, then rollback (enterprise→pro) is applied without asking the callback")
+        else:
+            led.ok("C20-R1", key, where(mut, mut.node), f"{len(paths)} path(s): a change in the second call always follows an approval given in that call")
+
     # structural: frozen, foreign writers
     fr = gene.dataclass_kwargs().get("frozen")
     key = "Gene ▸ @dataclass(frozen=True)"
